@@ -8,9 +8,24 @@ same atom as ``len(X.getvalue())``.  Equality and sign questions are decided
 from coefficients and declared atom lower bounds -- there is no solver.
 """
 import ast
-import copy
 
 from .astx import aliases_of, dotted, src
+
+
+def clone(node):
+    """Structural copy of an AST subtree that does not follow the `_parent`
+    back-links (copy.deepcopy would copy the whole module through them)."""
+    if isinstance(node, ast.AST):
+        new = node.__class__()
+        for name, val in ast.iter_fields(node):
+            setattr(new, name, clone(val))
+        for a in ('lineno', 'col_offset', 'end_lineno', 'end_col_offset'):
+            if hasattr(node, a):
+                setattr(new, a, getattr(node, a))
+        return new
+    if isinstance(node, list):
+        return [clone(x) for x in node]
+    return node
 
 
 class Lin(object):
@@ -77,7 +92,7 @@ class Expander(ast.NodeTransformer):
     def visit_Name(self, node):
         if isinstance(node.ctx, ast.Load) and node.id in self.al.single_assign \
                 and node.id not in self.keep and self.depth > 0:
-            val = copy.deepcopy(self.al.single_assign[node.id])
+            val = clone(self.al.single_assign[node.id])
             sub = Expander.__new__(Expander)
             sub.al = self.al
             sub.depth = self.depth - 1
@@ -89,7 +104,7 @@ class Expander(ast.NodeTransformer):
 def ctext(expr, fi, keep=()):
     """Canonical text of *expr* in function *fi* (aliases and temporaries
     expanded)."""
-    e = Expander(fi, keep=keep).visit(copy.deepcopy(expr))
+    e = Expander(fi, keep=keep).visit(clone(expr))
     return ' '.join(src(e).split())
 
 
@@ -102,7 +117,7 @@ def _tell_to_len(text):
 
 def lin(expr, fi, keep=()):
     """Linear form of an integer expression, or None."""
-    e = Expander(fi, keep=keep).visit(copy.deepcopy(expr))
+    e = Expander(fi, keep=keep).visit(clone(expr))
     return _lin(e)
 
 
@@ -150,8 +165,8 @@ def _lin(e):
                 if b.is_const() and b.const == 0:
                     return Lin(0, {'max(0,%r)' % (a,): 1})
             return None
-        if f is not None and f.endswith('.tell') and not e.args:
-            return _atom(e)
+        if f is not None and not e.args and not e.keywords:
+            return _atom(e)      # X.tell(), time.time(): opaque zero-argument calls
         return None
     if isinstance(e, (ast.Name, ast.Attribute)):
         return _atom(e)
